@@ -9,12 +9,11 @@ git -C /repo worktree add -q --detach "$wt" HEAD || exit 2
 if ! git -C "$wt" apply "$patch"; then echo "PATCH-DOES-NOT-APPLY $patch"; git -C /repo worktree remove --force "$wt"; exit 2; fi
 here=$(cd "$(dirname "$0")/.." && pwd); cd "$here" || exit 2
 for c in "$@"; do
-  out=$(BBV_REPO="$wt" ./check "$c" --tier "$tier" 2>&1); rc=$?
+  out=$(BBV_REPO="$wt" BBV_ARTIFACTS="$wt/.bbv-artifacts" BBV_EVIDENCE="$wt/.bbv-evidence" ./check "$c" --tier "$tier" 2>&1); rc=$?
   nviol=$(printf '%s\n' "$out" | grep -c '^VIOLATION')
   first=$(printf '%s\n' "$out" | grep '^VIOLATION' | head -2 | cut -c1-260)
   echo "== $c rc=$rc violations=$nviol"
   [ -n "$first" ] && printf '%s\n' "$first"
   [ $rc -eq 2 ] && printf '%s\n' "$out" | tail -5
 done
-for c in "$@"; do rm -rf "$here/artifacts/$c"; done
 git -C /repo worktree remove --force "$wt"
